@@ -337,3 +337,44 @@ Proof.
   destruct alts as [|[w r'] alts']; [|now apply arels_two in Hr].
   exists x, r. auto.
 Qed.
+
+(* ------------------------------------------------------------------ what the accessors read from a parsed operand *)
+Lemma entry_structure e : forallb rel_acc_ok (rels e) = true ->
+  mapM relrec_of (relations (lentry_tree e)) = if forallb rel_ops (rels e) then Ok (lentry_content e) else Panic 51%N.
+Proof.
+  intros H. rewrite relations_lentry, lentry_content_rels. rewrite forallb_forall in H.
+  revert H. induction (rels e) as [|r rs IH]; intros H; [reflexivity|]. cbn [map mapM forallb].
+  rewrite (relrec_of_lrel r (H r (or_introl eq_refl))). destruct (rel_ops r); [|reflexivity].
+  rewrite IH by (intros y Hy; apply H; now right). cbn [andb]. destruct (forallb rel_ops rs); reflexivity.
+Qed.
+Lemma ptext_entry_acc x r alts : awf false (ptext_field x r alts) = true ->
+  arel_ok r = true /\ forallb aalt_ok alts = true /\ arel_accok r = true /\ forallb (fun wr => arel_accok (snd wr)) alts = true.
+Proof.
+  intros Hw. destruct (ptext_field_item x r alts Hw) as [Hs Hl]. cbn [aitem_ok aitem_lexok] in *.
+  apply andb_prop in Hs as [Hs1 Hs2]. apply andb_prop in Hl as [Hl1 Hl2].
+  split; [exact Hs1|]. split; [exact Hs2|]. split; [now apply arel_accok_of|].
+  rewrite forallb_forall in Hs2, Hl2. rewrite forallb_forall. intros [w r'] Hin. cbn [snd].
+  specialize (Hs2 _ Hin). specialize (Hl2 _ Hin). unfold aalt_ok in Hs2. unfold aalt_lexok in Hl2. cbn [fst snd] in *.
+  apply andb_prop in Hs2 as [_ Hs2]. apply andb_prop in Hl2 as [_ Hl2]. now apply arel_accok_of.
+Qed.
+Theorem ptext_entry_read x r alts : awf false (ptext_field x r alts) = true ->
+  mapM relrec_of (relations (Node ENTRY (arels_elems r alts (p_last x)))) =
+  if arel_readable r && forallb (fun wr => arel_readable (snd wr)) alts then Ok (entry_content r alts) else Panic 51%N.
+Proof.
+  intros Hw. destruct (ptext_entry_acc x r alts Hw) as (Hr & Ha & Hc1 & Hc2).
+  rewrite <- (lentry_tree_of r alts (p_last x) Hr Ha). rewrite entry_structure.
+  - rewrite (forall_rels_of rel_ops arel_readable r alts (p_last x)).
+    + now rewrite entry_content_of.
+    + intros r0 fl. unfold rel_ops, lrel_of, arel_readable. cbn [l_ver]. destruct (a_ver r0); reflexivity.
+  - rewrite (forall_rels_of rel_acc_ok arel_accok r alts (p_last x)).
+    + now rewrite Hc1, Hc2.
+    + intros r0 fl. unfold rel_acc_ok, lrel_of, arel_accok. cbn [l_qual l_ver]. destruct (a_qual r0), (a_ver r0); reflexivity.
+Qed.
+Theorem ptext_relation_read x r : awf false (ptext_field x r []) = true ->
+  relrec_of (arel_tree r (p_last x)) = if arel_readable r then Ok (arel_content r) else Panic 51%N.
+Proof.
+  intros Hw. destruct (ptext_entry_acc x r [] Hw) as (Hr & _ & Hc1 & _).
+  rewrite <- (lrel_tree_of r (p_last x) Hr). rewrite relrec_of_lrel.
+  - rewrite lrel_content_of. unfold rel_ops, lrel_of, arel_readable. cbn [l_ver]. destruct (a_ver r); reflexivity.
+  - unfold rel_acc_ok, lrel_of. cbn [l_qual l_ver]. unfold arel_accok in Hc1. destruct (a_qual r), (a_ver r); exact Hc1.
+Qed.
